@@ -554,24 +554,115 @@ theorem C06_children_river (short : Bool) (pocket board : Nat) (h : popW 64 boar
 
 /-! ## ① `IsomorphismIterator` = the observations filtered by `is_canonical` -/
 
-theorem iso_unfold (short : Bool) (canon : Nat → Nat → Bool) :
-    ∀ fuel (st : ObsIter) (f2 : Nat), (unfold (ObsIter.step short) fuel st).length < fuel → fuel ≤ f2 →
-      unfold (isoStep short canon f2) fuel st
-        = (unfold (ObsIter.step short) fuel st).filter (fun o => canon o.1 o.2) := by
-  intro fuel
-  induction fuel using Nat.strongRecOn with
-  | _ fuel ih =>
-    intro st f2 hlen hf2
-    -- skip the non-canonical prefix
-    suffices hskip : ∀ g (s : ObsIter), g ≤ fuel → (unfold (ObsIter.step short) g s).length < g → g ≤ f2 →
-        (∀ g' < g, ∀ (s' : ObsIter) (f3 : Nat), (unfold (ObsIter.step short) g' s').length < g' → g' ≤ f3 →
-          unfold (isoStep short canon f3) g' s' = (unfold (ObsIter.step short) g' s').filter (fun o => canon o.1 o.2)) →
-        unfold (isoStep short canon f2) g s = (unfold (ObsIter.step short) g s).filter (fun o => canon o.1 o.2) from
-      hskip fuel st (Nat.le_refl _) hlen hf2 (fun g' hg' => ih g' hg')
-    intro g s _ hl hgf hih
-    sorry
+/-- `st` yields exactly the list `L` and then `None` -/
+inductive Yields (short : Bool) : ObsIter → List (Nat × Nat) → Prop
+  | nil (st) : ObsIter.step short st = none → Yields short st []
+  | cons (st o st' L) : ObsIter.step short st = some (o, st') → Yields short st' L → Yields short st (o :: L)
 
-end RP.C06
+theorem yields_of_unfold (short : Bool) : ∀ F st, (unfold (ObsIter.step short) F st).length < F →
+    Yields short st (unfold (ObsIter.step short) F st) := by
+  intro F
+  induction F with
+  | zero => intro st h; omega
+  | succ F ih =>
+    intro st h
+    simp only [unfold] at h ⊢
+    cases hs : ObsIter.step short st with
+    | none => simp only []; exact Yields.nil st hs
+    | some p =>
+      obtain ⟨o, st'⟩ := p
+      rw [hs] at h
+      simp only [List.length_cons] at h ⊢
+      exact Yields.cons st o st' _ hs (ih st' (by omega))
+
+theorem isoStep_spec (short : Bool) (canon : Nat → Nat → Bool) (st : ObsIter) (L : List (Nat × Nat))
+    (hy : Yields short st L) : ∀ f2, L.length < f2 →
+    (isoStep short canon f2 st = none ∧ L.filter (fun o => canon o.1 o.2) = []) ∨
+    (∃ o st' L', isoStep short canon f2 st = some (o, st') ∧ Yields short st' L' ∧ L'.length < L.length ∧
+      L.filter (fun o => canon o.1 o.2) = o :: L'.filter (fun o => canon o.1 o.2)) := by
+  induction hy with
+  | nil st hs =>
+    intro f2 hf
+    obtain ⟨f, rfl⟩ : ∃ f, f2 = f + 1 := ⟨f2 - 1, by simp at hf; omega⟩
+    left; simp only [isoStep, hs]; exact ⟨trivial, rfl⟩
+  | cons st o st' L hs hy' ih =>
+    intro f2 hf
+    obtain ⟨f, rfl⟩ : ∃ f, f2 = f + 1 := ⟨f2 - 1, by omega⟩
+    simp only [List.length_cons] at hf
+    by_cases hc : canon o.1 o.2 = true
+    · right
+      refine ⟨o, st', L, by simp only [isoStep, hs, hc, if_true], hy', by simp, ?_⟩
+      rw [List.filter_cons, if_pos hc]
+    · have hstep : isoStep short canon (f+1) st = isoStep short canon f st' := by
+        simp only [isoStep, hs, hc]; rfl
+      have hfil : (o :: L).filter (fun o => canon o.1 o.2) = L.filter (fun o => canon o.1 o.2) := by
+        rw [List.filter_cons, if_neg hc]
+      rw [hstep, hfil]
+      rcases ih f (by omega) with h | ⟨o2, st2, L2, h1, h2, h3, h4⟩
+      · exact Or.inl h
+      · exact Or.inr ⟨o2, st2, L2, h1, h2, by simp only [List.length_cons]; omega, h4⟩
+
+theorem iso_unfold (short : Bool) (canon : Nat → Nat → Bool) :
+    ∀ n st L, L.length ≤ n → Yields short st L → ∀ fuel f2, L.length < fuel → L.length < f2 →
+      unfold (isoStep short canon f2) fuel st = L.filter (fun o => canon o.1 o.2) := by
+  intro n
+  induction n with
+  | zero =>
+    intro st L hl hy fuel f2 hf hf2
+    obtain ⟨g, rfl⟩ : ∃ g, fuel = g + 1 := ⟨fuel - 1, by omega⟩
+    simp only [unfold]
+    rcases isoStep_spec short canon st L hy f2 hf2 with ⟨h1, h2⟩ | ⟨o, st', L', _, _, h3, _⟩
+    · rw [h1, h2]
+    · omega
+  | succ n ih =>
+    intro st L hl hy fuel f2 hf hf2
+    obtain ⟨g, rfl⟩ : ∃ g, fuel = g + 1 := ⟨fuel - 1, by omega⟩
+    simp only [unfold]
+    rcases isoStep_spec short canon st L hy f2 hf2 with ⟨h1, h2⟩ | ⟨o, st', L', h1, h2, h3, h4⟩
+    · rw [h1, h2]
+    · rw [h1, h4]
+      simp only [List.cons.injEq, true_and]
+      exact ih st' L' (by omega) h2 g f2 (by omega) (by omega)
+
+/-- **C06_isomorphisms_filter**: `IsomorphismIterator` yields exactly the observations of the
+street that satisfy `is_canonical`, in the order of the observation iterator (the canonicity
+predicate is a parameter; its model and theorems belong to C05). -/
+theorem C06_isomorphisms_filter (short : Bool) (canon : Nat → Nat → Bool) (street : Nat) (hs : street ≤ 3) :
+    isomorphisms short canon street = (Hands.observations short street).filter (fun o => canon o.1 o.2) := by
+  have hlen : (Hands.observations short street).length < OBS_FUEL := by
+    rw [C06_observations_count short street hs]
+    have : street = 0 ∨ street = 1 ∨ street = 2 ∨ street = 3 := by omega
+    rcases this with rfl | rfl | rfl | rfl <;> cases short <;> decide +kernel
+  have hy := yields_of_unfold short OBS_FUEL (ObsIter.init short street) hlen
+  exact iso_unfold short canon _ _ _ (Nat.le_refl _) hy OBS_FUEL OBS_FUEL hlen hlen
+
+/-- **C06_one_per_class** (corollary of C05's theorems, taken here as hypotheses about an
+equivalence `r` "same up to suit relabeling" and a canonical-form function): if every legal
+observation is equivalent to its canonical form, which is again legal, equivalent observations have
+equal canonical forms, and `is_canonical o ↔ canon o = o`, then every legal observation of the
+street has exactly one representative among the yielded isomorphism classes. -/
+theorem C06_one_per_class (short : Bool) (street : Nat) (hs : street ≤ 3)
+    (isCanonical : Nat → Nat → Bool) (canon : Nat × Nat → Nat × Nat) (r : Nat × Nat → Nat × Nat → Prop)
+    (canon_legal : ∀ o ∈ Hands.observations short street, canon o ∈ Hands.observations short street)
+    (canon_rel : ∀ o ∈ Hands.observations short street, r o (canon o))
+    (canon_inv : ∀ a b, a ∈ Hands.observations short street → b ∈ Hands.observations short street →
+      r a b → canon a = canon b)
+    (canonical_iff : ∀ o, isCanonical o.1 o.2 = true ↔ canon o = o)
+    (o : Nat × Nat) (ho : o ∈ Hands.observations short street) :
+    ∃ c, (c ∈ isomorphisms short isCanonical street ∧ r o c) ∧
+      ∀ c', c' ∈ isomorphisms short isCanonical street → r o c' → c' = c := by
+  rw [C06_isomorphisms_filter short isCanonical street hs]
+  have hco := canon_legal o ho
+  have hidem : canon (canon o) = canon o := (canon_inv o (canon o) ho hco (canon_rel o ho)).symm
+  refine ⟨canon o, ⟨?_, canon_rel o ho⟩, ?_⟩
+  · rw [List.mem_filter]
+    exact ⟨hco, by simpa using (canonical_iff (canon o)).mpr hidem⟩
+  · intro c' hc' hr
+    rw [List.mem_filter] at hc'
+    have h1 : canon c' = c' := (canonical_iff c').mp (by simpa using hc'.2)
+    rw [← h1]
+    exact (canon_inv o c' ho hc'.1 hr).symm
+
 -- non-vacuity: five free cards {0,3,4,5,6} of the standard deck, k = 2 (the walk visits all C(52,2) words)
 example : hands false 2 (2^52 - 1 - 0b1111001) = [9, 17, 24, 33, 40, 48, 65, 72, 80, 96] := by decide +kernel
 example : ksubsets 52 2 (blocked false (2^52 - 1 - 0b1111001)) = [9, 17, 24, 33, 40, 48, 65, 72, 80, 96] := by decide +kernel
